@@ -37,6 +37,7 @@ type IfaceV struct {
 	ID   *Term
 	Dyn  Value      // statically known dynamic value (may be nil)
 	DynT types.Type // its type
+	T    types.Type // static interface type, when known
 }
 
 type FuncV struct {
@@ -526,7 +527,7 @@ func (e *Exec) freshValue(name string, t types.Type, st *State) Value {
 	case *types.Signature:
 		return FuncV{ID: Fresh(name, Ref)}
 	case *types.Interface:
-		return IfaceV{ID: Fresh(name, Ref)}
+		return IfaceV{ID: Fresh(name, Ref), T: t}
 	case *types.Slice:
 		sv := SliceV{Ptr: Fresh(name+".ptr", Ref), Len: Fresh(name+".len", I64), Cap: Fresh(name+".cap", I64), Elem: u.Elem()}
 		e.assumeSliceWF(sv, st)
@@ -622,7 +623,7 @@ func (e *Exec) valueFromScalar(t types.Type, x *Term) Value {
 	case *types.Signature:
 		return FuncV{ID: x}
 	case *types.Interface:
-		return IfaceV{ID: x}
+		return IfaceV{ID: x, T: t}
 	}
 	return Scalar{x}
 }
@@ -762,7 +763,7 @@ func (e *Exec) fieldAddr(p PtrV, i int, st *State) PtrV {
 			if st != nil && st.refTop != e.entry.refTop {
 				e.ctx.assume(Eq(Lt(fa, st.refTop), Lt(p.Addr, st.refTop)))
 			}
-			e.ctx.assume(Imp(Le(ConstI(0, Ref), p.Addr), Le(ConstI(0, Ref), fa)))
+			e.ctx.assume(Imp(Lt(ConstI(0, Ref), p.Addr), Lt(ConstI(0, Ref), fa)))
 			return PtrV{Kind: pObj, Addr: fa, T: ft, FirstClass: true}
 		case *types.Array:
 			base := App("arr:"+key, Ref, p.Addr)
